@@ -124,7 +124,7 @@ def cases(tier, seed):
                         yield {'g': 'F', 'fac': fac, 'N': N, 'M': M, 'dt': dt, 'k': 'm'}
 
 
-SCALARS = ['int', 'float', 'inexact', 'negfloat', 'npfloat', 't0d', 't1e', 'zero_int', 'zero_float', 'complex']
+SCALARS = ['int', 'float', 'inexact', 'negfloat', 'npfloat', 't0d', 't1e', 't0d_f32', 't0d_i64', 'zero_int', 'zero_float', 'complex']
 
 
 def _scalar(sk, dtype):
@@ -142,6 +142,10 @@ def _scalar(sk, dtype):
         return torch.tensor(2.0, dtype=dtype), 2.0
     if sk == 't1e':
         return torch.tensor([-2.0], dtype=dtype), -2.0
+    if sk == 't0d_f32':
+        return torch.tensor(3.0), 3.0            # a float32 0-d tensor whatever the operand dtype
+    if sk == 't0d_i64':
+        return torch.tensor(3), 3.0              # an int64 0-d tensor
     if sk == 'zero_int':
         return 0, 0.0
     if sk == 'zero_float':
@@ -245,7 +249,7 @@ def _scalar_case(c):
     key = 'sc|%s|%s|%s' % (form, sk, space.skey(st))
     nt = space.nontrivial(st)
     site = 'scalar.' + form.replace('+', 'add').replace('-', 'sub').replace('*', 'mul').replace('/', 'div') + '.' + sk
-    left_foreign = form.startswith('s') and sk in ('npfloat', 't0d', 't1e')
+    left_foreign = form.startswith('s') and sk in ('npfloat', 't0d', 't1e', 't0d_f32', 't0d_i64')
     if form == 'x/s' and sv == 0:
         return Outcome(key + '|skip', False, 'skipped:division by zero', transitions=0, compared=0)
     fn = {'x+s': lambda: x + s, 'x-s': lambda: x - s, 'x*s': lambda: x * s, 's+x': lambda: s + x,
@@ -261,6 +265,8 @@ def _scalar_case(c):
         return Outcome(key, nt, 'foreign-left returned ' + type(res).__name__)
     bound = ref.absbound(cx) * max(abs(sv), 1.0) + abs(sv)
     exact = (fam.startswith('int') and form != 'x/s' or (form == 'x/s' and fam.startswith('int') and sv in (2.0, 0.5, -4.0, -2.0))) and sk != 'inexact'
+    if sk in ('t0d_f32', 't0d_i64') and dt == 'c128':
+        dt_note = 'complex operand with a real tensor scalar'
     dtype = None if sk == 'complex' else ref.DT[dt]
     viol = check_tt(res, want, site, dtype, exact, bound, ttm=False, dtype_ref=ref.DT[dt])
     if isinstance(res, TT) and not viol:
